@@ -53,3 +53,293 @@ Example snell_images_example : snell_images (rev [1; 2]) (rev [0]) [0].
 Proof.
   simpl. rewrite sin_0, cos_0. repeat split; lra.
 Qed.
+
+(* ====================================================================================== *)
+(* EXTENSION: the objects (Interface / Path / RayGeometry), their reversal, and the three
+   functions as the LOOPS of the source with the source's index arithmetic
+   (Model/PathReverse.v; proofs in Proofs/PathReverseProofs.v, Proofs/PathReverseGeomProofs.v).
+   The theorems above are about the list-level kernels (interfaces already zipped with what
+   the loops read, angles of the reversed path GIVEN as the Snell images); the theorems below
+   put the zipping, the indices, Path.reverse() / Interface.reverse() / the reversed
+   RayGeometry, the unit strings, force_complex and the error branches inside the model, and
+   discharge the Snell hypothesis from the ray's own outgoing angles. *)
+From Coq Require Import String.
+From Coq Require Import List ZArith Arith Lia.
+From Arim Require Import Model.PathReverse Proofs.PathReverseProofs Proofs.PathReverseGeomProofs.
+From Arim Require Model.Vec3 Model.RayGeom Proofs.RayGeomProofs.
+
+(* ---- 1. the loops with the source's indices ARE the list-level kernels (every Num instance,
+        floats included: no algebraic law is used) ---- *)
+Theorem beamspread_loop_is_kernel : forall T (N : Num T) (rg : raygeom T) n, rg_wf rg n ->
+  beamspread_idx N rg = Ok (beamspread N (rg_vel rg) (rg_leg rg) (rg_inc rg)).
+Proof. exact @beamspread_idx_eq. Qed.
+
+Theorem reverse_beamspread_loop_is_kernel : forall T (N : Num T) (rg : raygeom T) n, rg_wf rg n ->
+  reverse_beamspread_idx N rg = Ok (reverse_beamspread N (rg_vel rg) (rg_leg rg) (rg_inc rg)).
+Proof. exact @reverse_beamspread_idx_eq. Qed.
+
+Theorem attenuation_loop_is_kernel : forall T (N : Num T) (p : ppath T) rg n frequency,
+  rg_wf rg n -> length (pp_materials p) = n -> length (pp_modes p) = n ->
+  material_attenuation_path N p rg frequency
+  = Ok (attenuation N (att_coeffs_of_path p frequency) (rg_leg rg)).
+Proof. exact @material_attenuation_path_eq. Qed.
+
+Theorem transrefl_loop_is_kernel : forall T K (NK : Num K) (emb : T -> K) (p : ppath T) rg n u l,
+  path_wf p rg n -> view_path emb p rg = Some l ->
+  transrefl_path NK emb p rg (Some u) = lift2 (transrefl_for_path NK u l).
+Proof. exact @transrefl_path_view. Qed.
+
+(* for the reverse function the conversion to the coefficient dtype must commute with the
+   Snell angle of the REFLECTIONS: the code converts to complex before snell_angles at a
+   transmission only; at a reflection it takes the real arcsin and converts afterwards *)
+Theorem reverse_transrefl_loop_is_kernel : forall T K (N : Num T) (NK : Num K) (emb : T -> K) (p : ppath T) rg n u l,
+  path_wf p rg n -> view_path emb p rg = Some l ->
+  (forall th a b, emb (snell_angles N th a b) = snell_angles NK (emb th) (emb a) (emb b)) ->
+  reverse_transrefl_path N NK emb p rg (Some u) = lift2 (reverse_transrefl_for_path NK u l).
+Proof. exact @reverse_transrefl_path_view. Qed.
+
+(* ---- 2. Interface.reverse / Path.reverse / the RayGeometry of the reversed path ---- *)
+Theorem interface_reverse_spec : forall T (x y : pinterface T), pint_reverse x = Ok y ->
+  pi_points y = pi_points x /\ pi_tr y = pi_tr x /\ pi_against y = pi_against x /\
+  pi_inc_side y = pi_out_side x /\ pi_out_side y = pi_inc_side x /\
+  pi_kind y = match pi_kind x, pi_tr x with
+              | Some k, Some Transmission => Some (ikind_reverse k)
+              | k, _ => k
+              end /\
+  (pi_kind x <> None -> pi_tr x <> None) /\
+  (pi_against x <> None <-> pi_tr x = Some Reflection).
+Proof. exact @pint_reverse_fields. Qed.
+
+Theorem interface_reverse_raises_iff : forall T (x : pinterface T),
+  (exists e, pint_reverse x = Raise e) <->
+  ((pi_kind x <> None /\ pi_tr x = None) \/
+   (pi_against x <> None /\ pi_tr x <> Some Reflection) \/
+   (pi_against x = None /\ pi_tr x = Some Reflection)).
+Proof. exact @pint_reverse_raises_iff. Qed.
+
+Theorem interface_reverse_involutive : forall T (x y : pinterface T),
+  pint_reverse x = Ok y -> pint_reverse y = Ok x.
+Proof. exact @pint_reverse_involutive. Qed.
+
+Theorem path_reverse_spec : forall T (p q : ppath T), ppath_reverse p = Ok q ->
+  exists ris, omapM pint_reverse (pp_interfaces p) = Ok ris /\
+    pp_interfaces q = rev ris /\ pp_materials q = rev (pp_materials p) /\
+    pp_modes q = rev (pp_modes p) /\
+    pp_rays q = match pp_rays p with None => None | Some r => Some (rg_reverse r) end /\
+    (2 <= length (pp_interfaces p))%nat /\
+    length (pp_materials p) = (length (pp_interfaces p) - 1)%nat /\
+    length (pp_modes p) = (length (pp_interfaces p) - 1)%nat.
+Proof. exact @ppath_reverse_fields. Qed.
+
+Theorem path_reverse_defined_iff : forall T (p : ppath T),
+  (exists q, ppath_reverse p = Ok q) <->
+  ((exists ris, omapM pint_reverse (pp_interfaces p) = Ok ris) /\
+   (2 <= length (pp_interfaces p))%nat /\
+   length (pp_materials p) = (length (pp_interfaces p) - 1)%nat /\
+   length (pp_modes p) = (length (pp_interfaces p) - 1)%nat).
+Proof. exact @ppath_reverse_ok_iff. Qed.
+
+Theorem path_reverse_involutive_objects : forall T (p q : ppath T),
+  ppath_reverse p = Ok q -> ppath_reverse q = Ok p.
+Proof. exact @ppath_reverse_involutive. Qed.
+
+Theorem ray_geometry_reverse_involutive : forall T (rg : raygeom T), rg_reverse (rg_reverse rg) = rg.
+Proof. exact @rg_reverse_involutive. Qed.
+
+(* Path.velocities of the reversed path = the velocities of FermatPath.reverse() *)
+Theorem path_reverse_velocities : forall T (p q : ppath T), ppath_reverse p = Ok q ->
+  ppath_velocities q = rev (ppath_velocities p).
+Proof. exact @ppath_velocities_reverse. Qed.
+
+Theorem ray_geometry_of_reversed_path : forall T (p q : ppath T) rg, ppath_reverse p = Ok q ->
+  ray_geometry_from_path p = Ok rg -> ray_geometry_from_path q = Ok (rg_reverse rg).
+Proof. exact @PathReverseProofs.ray_geometry_of_reversed_path. Qed.
+
+(* rg_reverse is not an assumption: on the geometric model of C05 (points, local frames,
+   normal-side flags, Interface.reverse swapping the flags, the reversed column of point indices)
+   the legs of the reversed ray are the reversed legs and its incoming / outgoing conventional
+   angles are the outgoing / incoming ones of the ray *)
+Theorem ray_geometry_of_reversed_geometry : forall (ifs : list (RayGeom.iface (T:=R))) ray,
+  length ray = length ifs -> forall vels rg,
+  rg_of_geometry NumR ifs ray vels = Ok rg ->
+  rg_of_geometry NumR (RayGeom.path_reverse ifs) (rev ray) (rev vels) = Ok (rg_reverse rg).
+Proof. exact rg_of_geometry_reverse. Qed.
+
+(* ... ray for ray through the index arrays of Rays.reverse(): x[k, i, j] -> y[d - k, j, i] *)
+Theorem ray_geometry_of_reversed_rays : forall (ifs : list (RayGeom.iface (T:=R))) n m interior i j r vels rg,
+  (length interior + 2 = length ifs)%nat -> RayGeomProofs.interior_shape n m interior ->
+  (i < n)%nat -> (j < m)%nat ->
+  RayGeom.ray_column (RayGeom.make_indices n m interior) i j = Some r ->
+  rg_of_geometry NumR ifs r vels = Ok rg ->
+  exists r', RayGeom.ray_column (RayGeom.make_indices m n (RayGeom.rays_reverse_interior m interior)) j i = Some r' /\
+             rg_of_geometry NumR (RayGeom.path_reverse ifs) r' (rev vels) = Ok (rg_reverse rg).
+Proof. exact rg_of_reversed_rays. Qed.
+
+(* ---- 3. the property on the objects ---- *)
+(* any coefficient structure with a commutative, associative product; `snell_frames`: at every
+   interior interface the angle the reverse function derives by snell_angles IS the ray's
+   conventional outgoing angle (in the coefficient dtype).  Error branches included: if one
+   call raises so does the other. *)
+Theorem reverse_transrefl_objects_any_field : forall T K (N : Num T) (NK : Num K) (emb : T -> K),
+  (forall a b : K, nmul NK a b = nmul NK b a) ->
+  (forall a b c : K, nmul NK (nmul NK a b) c = nmul NK a (nmul NK b c)) ->
+  forall (p q : ppath T) rg n u,
+  ppath_reverse p = Ok q -> path_wf p rg n -> snell_frames N NK emb p rg ->
+  same_outcome (reverse_transrefl_path N NK emb p rg u) (transrefl_path NK emb q (rg_reverse rg) u).
+Proof. exact @reverse_transrefl_path_eq. Qed.
+
+(* over the reals the hypothesis is Snell's law itself: sin(out) = (v_b / v_a) sin(inc) with the
+   outgoing angle in [-pi/2, pi/2]; both dtypes (force_complex), any unit string *)
+Theorem reverse_transrefl_objects : forall (p q : ppath R) rg n force_complex unit,
+  ppath_reverse p = Ok q -> path_wf p rg n -> snell_path_R p rg ->
+  same_outcome (reverse_transmission_reflection_for_path NumR p rg force_complex unit)
+               (transmission_reflection_for_path NumR q (rg_reverse rg) force_complex unit).
+Proof. exact reverse_transmission_reflection_eq. Qed.
+
+Theorem reverse_beamspread_objects : forall (rg : raygeom R) n, rg_wf rg n -> snell_ray rg n ->
+  reverse_beamspread_idx NumR rg = beamspread_idx NumR (rg_reverse rg).
+Proof. exact reverse_beamspread_idx_eq_reversed. Qed.
+
+Theorem attenuation_objects : forall (p q : ppath R) rg n frequency,
+  ppath_reverse p = Ok q -> path_wf p rg n ->
+  material_attenuation_path NumR q (rg_reverse rg) frequency = material_attenuation_path NumR p rg frequency.
+Proof. exact material_attenuation_path_reversed. Qed.
+
+(* END TO END, as the property is observed: p with its rays, RayGeometry.from_path(p),
+   p.reverse(), RayGeometry.from_path(p.reverse()) *)
+Theorem receive_side_is_transmit_side_of_reversed_path : forall (p q : ppath R) rg n,
+  ppath_reverse p = Ok q -> ray_geometry_from_path p = Ok rg -> path_wf p rg n ->
+  rg_vel rg = ppath_velocities p -> reflections_in_one_medium p rg -> snell_ray rg n ->
+  exists rg', ray_geometry_from_path q = Ok rg' /\ rg' = rg_reverse rg /\
+    (forall force_complex unit,
+       same_outcome (reverse_transmission_reflection_for_path NumR p rg force_complex unit)
+                    (transmission_reflection_for_path NumR q rg' force_complex unit)) /\
+    reverse_beamspread_idx NumR rg = beamspread_idx NumR rg' /\
+    (forall frequency,
+       material_attenuation_path NumR p rg frequency = material_attenuation_path NumR q rg' frequency).
+Proof. exact PathReverseProofs.receive_side_is_transmit_side_of_reversed_path. Qed.
+
+(* ---- 4. the unit strings and the error branches ---- *)
+Theorem unit_case_insensitive : forall s,
+  parse_unit (str_lower s) = parse_unit s /\ parse_unit (str_upper s) = parse_unit s.
+Proof. exact parse_unit_lower_upper. Qed.
+
+Theorem unit_spec : forall s,
+  (parse_unit s = Some Stress <-> str_lower s = "stress"%string) /\
+  (parse_unit s = Some Displacement <-> str_lower s = "displacement"%string) /\
+  (parse_unit s = None <-> str_lower s <> "stress"%string /\ str_lower s <> "displacement"%string).
+Proof. exact parse_unit_spec. Qed.
+
+(* no interior interface: None, whatever the unit string (an invalid unit is only detected by
+   the per-interface helpers) *)
+Theorem no_interior_interface_returns_none : forall T K (N : Num T) (NK : Num K) (emb : T -> K) (p : ppath T) rg u,
+  (length (pp_interfaces p) <= 2)%nat ->
+  transrefl_path NK emb p rg u = Ok None /\ reverse_transrefl_path N NK emb p rg u = Ok None.
+Proof. exact @transrefl_no_interior. Qed.
+
+(* the exception of every branch of the two loop bodies *)
+Theorem loop_body_error_kinds : forall T K (N : Num T) (NK : Num K) (emb : T -> K) (fr : frame (T:=T)),
+  (pi_tr (fr_x fr) = None ->
+     forall u, stepF_fr NK emb u fr = Raise EAssert /\ stepR_fr N NK emb u fr = Raise EAssert) /\
+  (pi_tr (fr_x fr) <> None ->
+     stepF_fr NK emb None fr = Raise EValue /\
+     (stepR_fr N NK emb None fr = Raise EValue \/
+      (pi_tr (fr_x fr) = Some Transmission /\ pi_kind (fr_x fr) = None /\ stepR_fr N NK emb None fr = Raise EAttr))) /\
+  (pi_tr (fr_x fr) = Some Transmission -> pi_kind (fr_x fr) = None ->
+     forall u, stepF_fr NK emb (Some u) fr = Raise ENotImpl /\ stepR_fr N NK emb (Some u) fr = Raise EAttr) /\
+  (pi_tr (fr_x fr) = Some Reflection -> pi_kind (fr_x fr) = None ->
+     forall u, stepF_fr NK emb (Some u) fr = Raise ENotImpl /\ stepR_fr N NK emb (Some u) fr = Raise ENotImpl) /\
+  (pi_tr (fr_x fr) = Some Reflection -> pi_kind (fr_x fr) <> None -> pi_against (fr_x fr) = None ->
+     forall u, stepF_fr NK emb (Some u) fr = Raise EAttr /\ stepR_fr N NK emb (Some u) fr = Raise EAttr).
+Proof. exact @step_error_kinds. Qed.
+
+(* the loop bodies of the model with the source's indices are these frame-level bodies, and the
+   first interface (in path order) that raises decides the exception of the whole call *)
+Theorem loop_body_at_interface : forall T K (N : Num T) (NK : Num K) (emb : T -> K) (p : ppath T) rg n u j fr,
+  path_wf p rg n -> frame_at p rg j = Some fr ->
+  tr_step_forward NK emb p rg u (1 + j) (fr_x fr) = stepF_fr NK emb u fr /\
+  tr_step_reverse N NK emb p rg u (1 + j) (fr_x fr) = stepR_fr N NK emb u fr.
+Proof. exact @steps_at. Qed.
+
+Theorem first_error_wins : forall T K (NK : Num K) (step : nat -> pinterface T -> outcome K) L j e,
+  (forall j', (j' < j)%nat -> exists v, nth_error (steps step 1 L) j' = Some (Ok v)) ->
+  nth_error (steps step 1 L) j = Some (Raise e) -> tr_loop NK step 1 L None = Raise e.
+Proof. exact @tr_loop_first_error. Qed.
+
+(* ---- non-vacuity: an OBLIQUE Snell-exact ray on a 4-interface immersion path ----
+   probe -> front wall (transmission fluid_solid) -> back wall (reflection against the couplant,
+   mode conversion L -> T) -> grid.  couplant c = 1; block c_L = sqrt 2, c_T = 1.
+   Angles: pi/6 in the couplant, pi/4 for L in the block, pi/6 for the reflected T. *)
+Definition ex_couplant : pmaterial R := mkPMat 1 1 0 (Some (fun _ => 2)) None.
+Definition ex_block : pmaterial R := mkPMat 3 (sqrt 2) 1 (Some (fun f => f)) None.
+Definition ex_rg : raygeom R := mkRG 4 [1; sqrt 2; 1] [1; 2; 3] [PI / 6; PI / 4] [PI / 4; PI / 6].
+Definition ex_path : ppath R :=
+  mkPPath [ mkPInt 0 None None None None (Some true);
+            mkPInt 1 (Some FluidSolid) (Some Transmission) None (Some true) (Some false);
+            mkPInt 2 (Some SolidFluid) (Some Reflection) (Some ex_couplant) (Some false) (Some false);
+            mkPInt 3 None None None (Some true) None ]
+          [ex_couplant; ex_block; ex_block] [ModeL; ModeL; ModeT] (Some ex_rg).
+
+Lemma ex_sqrt2 : sqrt 2 * sqrt 2 = 2. Proof. apply sqrt_sqrt. lra. Qed.
+Lemma ex_sqrt2_pos : 0 < sqrt 2. Proof. apply sqrt_lt_R0. lra. Qed.
+
+Example end_to_end_hypotheses_satisfiable :
+  exists q, ppath_reverse ex_path = Ok q /\ ray_geometry_from_path ex_path = Ok ex_rg /\
+    path_wf ex_path ex_rg 3 /\ rg_vel ex_rg = ppath_velocities ex_path /\
+    reflections_in_one_medium ex_path ex_rg /\ snell_ray ex_rg 3 /\ snell_path_R ex_path ex_rg.
+Proof.
+  assert (Hwf : path_wf ex_path ex_rg 3) by (repeat split; cbn; lia).
+  assert (Hrefl : reflections_in_one_medium ex_path ex_rg).
+  { intros j fr Hfr Htr. destruct j as [|[|[|[|j]]]]; cbn in Hfr; try discriminate;
+      injection Hfr as <-; cbn in *; try discriminate; reflexivity. }
+  assert (Hs : snell_ray ex_rg 3).
+  { pose proof ex_sqrt2 as S2. pose proof ex_sqrt2_pos as P2. pose proof PI_RGT_0 as HP.
+    intros j Hj. destruct j as [|[|j]]; [| |lia]; cbn [ex_rg rg_vel rg_inc rg_out nth].
+    - rewrite sin_PI4, sin_PI6. repeat split; try lra. field_simplify_eq; lra.
+    - rewrite sin_PI4, sin_PI6. repeat split; try lra. field_simplify_eq; lra. }
+  eexists. split; [reflexivity|]. split; [reflexivity|]. split; [exact Hwf|]. split; [reflexivity|].
+  split; [exact Hrefl|]. split; [exact Hs|].
+  apply (snell_ray_path ex_path ex_rg 3 Hwf eq_refl Hrefl Hs).
+Qed.
+
+(* ... on which the calls do return values (the conclusion is not "both raise"): *)
+Example end_to_end_returns_values :
+  (exists v, reverse_transmission_reflection_for_path NumR ex_path ex_rg true "Displacement" = Ok (Some v)) /\
+  (exists v, reverse_transmission_reflection_for_path NumR ex_path ex_rg false "stress" = Ok (Some v)) /\
+  (exists v, reverse_beamspread_idx NumR ex_rg = Ok v) /\
+  (exists v, material_attenuation_path NumR ex_path ex_rg 5 = Ok v).
+Proof. repeat split; eexists; reflexivity. Qed.
+
+(* the error branches exist: an ambiguous interface (kind without transmission/reflection)
+   stops Path.reverse(); an invalid unit raises ValueError; a path whose rays were not computed
+   has no RayGeometry *)
+Example error_branches_reachable :
+  ppath_reverse (mkPPath [mkPInt 0 (Some FluidSolid) None None None None; mkPInt 1 None None None None None]
+                         [ex_couplant] [ModeL] None) = Raise EValue /\
+  transmission_reflection_for_path NumR ex_path ex_rg true "pressure" = Raise EValue /\
+  reverse_transmission_reflection_for_path NumR ex_path ex_rg true "pressure" = Raise EValue /\
+  ray_geometry_from_path (mkPPath (pp_interfaces ex_path) (pp_materials ex_path) (pp_modes ex_path) None)
+  = Raise EValue /\
+  parse_unit "DISPLACEMENT" = Some Displacement /\ parse_unit "Stress" = Some Stress /\
+  parse_unit "pressure" = None.
+Proof. repeat split; reflexivity. Qed.
+
+(* the hypotheses of the geometric bridge are satisfiable: see C05's reverse_hypotheses_satisfiable
+   and f1_witness (Props/C05.v) for a path on which every RayGeometry entry is a value *)
+
+(* the view hypothesis of the *_loop_is_kernel theorems holds on the example path ... *)
+Example view_hypothesis_satisfiable :
+  (exists l, view_path (cre NumR) ex_path ex_rg = Some l /\ length l = 2%nat) /\
+  (exists l, view_path (fun x : R => x) ex_path ex_rg = Some l /\ length l = 2%nat).
+Proof. split; eexists; split; reflexivity. Qed.
+
+(* ... and so does the hypothesis of the geometric bridge: three one-point interfaces with the
+   global frame as local frame, every normal-side flag set *)
+Definition ex_ifs : list (RayGeom.iface (T:=R)) :=
+  [ RayGeom.mkIface [ (0, 0, 1) ] [ Vec3.mid3 NumR ] None (Some true);
+    RayGeom.mkIface [ (0, 0, 0) ] [ Vec3.mid3 NumR ] (Some true) (Some false);
+    RayGeom.mkIface [ (1, 0, -1) ] [ Vec3.mid3 NumR ] (Some false) None ].
+Example bridge_hypothesis_satisfiable :
+  exists rg, rg_of_geometry NumR ex_ifs [0; 0; 0]%nat [1; 2] = Ok rg /\
+             length (rg_leg rg) = 2%nat /\ length (rg_inc rg) = 1%nat /\ length (rg_out rg) = 1%nat.
+Proof. eexists. split; [reflexivity|]. repeat split. Qed.
